@@ -76,6 +76,9 @@ type c19Res struct {
 	Panic    string   `json:"panic,omitempty"`
 	Crashed  bool     `json:"crashed,omitempty"`
 	Stderr   string   `json:"stderr_tail,omitempty"`
+	// E2eOnly: the same parameters in a request with 0 traceroute queries and 1 end-to-end probe
+	// ("" = not tried, "accepted", "rejected: …")
+	E2eOnly string `json:"e2e_only,omitempty"`
 }
 
 const c19InitSeq = 0x00300000
@@ -99,6 +102,7 @@ func c19Exec(t *testing.T, c c19Case) c19Res {
 		}
 	}
 	port := res.Port
+	twinFrom := -1
 	synctest.Test(t, func(t *testing.T) {
 		w := &bwWire{}
 		w.Configure = func(idx int, addr netip.Addr, src *bwSource, snk *bwSink) {
@@ -128,6 +132,19 @@ func c19Exec(t *testing.T, c c19Case) c19Res {
 			res.Accepted = err == nil && r != nil
 			if err != nil {
 				res.Err = err.Error()
+			}
+			if err != nil && c.Avail == "" {
+				// whether a parameter set is acceptable does not depend on the kind of query that carries it:
+				// the same parameters in an end-to-end-only request must be rejected too
+				twinFrom = len(w.AllPackets())
+				p2 := params
+				p2.TracerouteQueries, p2.E2eQueries = 0, 1
+				r2, err2 := traceroute.VerifNewTraceroute(nil).RunTraceroute(context.Background(), p2)
+				if err2 == nil && r2 != nil {
+					res.E2eOnly = "accepted"
+				} else {
+					res.E2eOnly = "rejected: " + fmt.Sprint(err2)
+				}
 			}
 		case "once":
 			dp := port
@@ -186,7 +203,11 @@ func c19Exec(t *testing.T, c c19Case) c19Res {
 				}
 			}()
 		}
-		for _, p := range w.AllPackets() {
+		all := w.AllPackets()
+		if twinFrom >= 0 && twinFrom <= len(all) {
+			all = all[:twinFrom] // what the twin (end-to-end-only) request wrote is not part of this case's wire
+		}
+		for _, p := range all {
 			h := bwParse(p.Data)
 			res.PktsRaw = append(res.PktsRaw, c19Pkt{TTL: h.TTL, Proto: h.Proto, DPort: h.DstPort, Flags: h.Flags, V6: h.V6, Dst: h.Dst.String(),
 				SinkP: int(p.Dst.Port()), SinkA: p.Dst.Addr().String()})
@@ -575,7 +596,7 @@ func TestC19(t *testing.T) {
 	for i, c := range cases {
 		r := results[i]
 		sample := map[string]any{"case": c, "effective_port": r.Port, "accepted": r.Accepted, "crashed": r.Crashed || r.Panic != "", "error": r.Err,
-			"http_status": r.HTTP, "observed": obs[i], "oracle_line": lines[i], "panic": r.Panic + r.Stderr}
+			"http_status": r.HTTP, "e2e_only_request": r.E2eOnly, "observed": obs[i], "oracle_line": lines[i], "panic": r.Panic + r.Stderr}
 		key := fmt.Sprintf("%s|%s|%s|%d|%d|%d|%s|%s", c.Via, c.Proto, c.Method, c.Min, c.Max, c.Port, c.Target, c.Avail)
 		rep.Case(c.Via, key, strings.HasPrefix(obs[i], "plan") || obs[i] == "crash", sample)
 		rep.Hit("via:" + c.Via)
@@ -603,6 +624,11 @@ func TestC19(t *testing.T) {
 			minEff = 1
 		}
 		switch {
+		case r.E2eOnly == "accepted" && obs[i] == "reject" && len(r.Pkts) == 0 && 1 <= minEff && minEff <= c.Max:
+			// (an end-to-end probe only uses the last TTL: a first TTL that is out of range or above the
+			// last one is not looked at by such a request, which is not a parameter being dishonoured)
+			bad = fmt.Sprintf("a request with one traceroute query is rejected (%s) before any probe is sent, but the same parameters (protocol %s method %q TTL %d..%d port %d target %s) are accepted in a request with only an end-to-end probe", r.Err, c.Proto, c.Method, minEff, c.Max, r.Port, c.Target)
+			sig["defect"] = "e2e-only-accepts-rejected-parameters"
 		case strings.Contains(r.Err, errRunaway.Error()):
 			bad = fmt.Sprintf("the run never stops sending: asked protocol %s method %q TTL %d..%d, the simulated wire's guard ended it after 1500 probes", c.Proto, c.Method, minEff, c.Max)
 			sig["defect"] = "runaway-loop"
